@@ -55,6 +55,11 @@ class Check:
     def ob(self, rule: str, instance: str, ok: Optional[bool], where: str = "", found: Any = None,
            accepted: Any = None, why: str = "", key: Optional[str] = None, nontrivial: bool = True) -> bool:
         """record one obligation. ok=True discharged, False violated, None not understood."""
+        if ok is False and (found is None or (isinstance(found, (list, tuple, dict, set, str)) and len(found) == 0)):
+            # verdict discipline (DESIGN 0.2): a violation needs a construct that was positively understood and lies outside the accept set. A rule that found NOTHING of what it
+            # looks for (the code is spelled some other way) has understood nothing: "not understood", never a violation
+            ok = None
+            why = (why + " " if why else "") + "[the rule recognised none of the constructs it looks for]"
         self.obligations.append({
             "rule": rule, "instance": instance, "ok": ok, "where": where, "found": _j(found),
             "accepted": _j(accepted), "why": why, "key": key or f"{where.split(':')[0]}|{instance}",
